@@ -182,7 +182,8 @@ def races_of(stderr, sites, repo_root):
         for a, f in zip(acc, mf):
             if not f:
                 cands.append(set())
-                funcs.append("?")
+                # accesses made inside sync / sync/atomic carry no caller frames
+                funcs.append("(sync)" if a[1] and a[1][0][0].startswith(("sync.", "sync/", "runtime.race")) else "?")
                 continue
             here = sites.get((f[1], f[2]), [])
             kinds = ("Wr",) if a[0] else ("Rd", "Use", "Wr")
@@ -298,6 +299,14 @@ def run(run):
                       "srcfacts could not extract the access table from %s (theorem C17_table_ok is not re-checked)" % C.REPO, True)
         return
     cov["srcfacts"] = msg
+    # the extractor is trusted: re-validate it on the hand-checked fixture every run
+    from . import fixture_c17
+    fok, fdiff, fn = fixture_c17.compare()
+    cov["extractor_selftest"] = {"expectations": fn, "ok": fok, "diff": fdiff[:20]}
+    if not fok:
+        run.violation("srcfacts-selftest", {"diff": fdiff[:50]},
+                      "srcfacts no longer reproduces the hand-determined facts of its fixture "
+                      "(harness/cmd/srcfacts/testdata): the extracted table cannot be trusted", True)
     C.coq_build()
     rep, replog = coq_report()
     if rep is None:
